@@ -234,4 +234,119 @@ Proof.
     split; [reflexivity|]. split; [split; [apply nums2; assumption|auto]|]. simpl. auto.
 Qed.
 
+(* ---- in the documented domain => accepted (a usable instance exists) ---- *)
+Lemma nums_inv2 : forall a b, nums [a; b] -> is_num NR a = true /\ is_num NR b = true.
+Proof. intros a b H. inversion H as [|? ? H1 H']; subst. inversion H' as [|? ? H2 _]; subst. auto. Qed.
+Lemma nums_inv1 : forall a, nums [a] -> is_num NR a = true.
+Proof. intros a H. inversion H; assumption. Qed.
+Lemma nums_inv3 : forall a b c, nums [a; b; c] -> is_num NR a = true /\ is_num NR b = true /\ is_num NR c = true.
+Proof. intros a b c H. inversion H as [|? ? H1 H']; subst. destruct (nums_inv2 _ _ H'). auto. Qed.
+Lemma nums_inv4 : forall a b c d, nums [a; b; c; d] ->
+  is_num NR a = true /\ is_num NR b = true /\ is_num NR c = true /\ is_num NR d = true.
+Proof. intros a b c d H. inversion H as [|? ? H1 H']; subst. destruct (nums_inv3 _ _ _ H') as [? [? ?]]. auto. Qed.
+
+(* walk through the checks: each is shown to pass *)
+Ltac passes :=
+  first [ reflexivity | assumption
+        | apply pos_ok_iff; assumption | apply int_pos_iff; assumption
+        | apply in01_iff; assumption | apply in01o_iff; assumption
+        | apply p_lt_iff; assumption | apply p_le_iff; assumption ].
+
+Ltac fwd :=
+  repeat match goal with
+  | |- exists d, rbind (check ?b ?e) _ = Val d =>
+      lazymatch b with
+      | true => idtac
+      | _ => let E := fresh "E" in assert (E : b = true) by passes; rewrite E; clear E
+      end; cbn [check rbind]
+  end.
+
+Ltac stepv tac :=
+  match goal with
+  | |- exists d, rbind ?r _ = Val d =>
+      let Hr := fresh "Hr" in
+      eassert (Hr : r = Val _) by tac; rewrite Hr; clear Hr; cbn [rbind]
+  end.
+
+Theorem ctor_complete : forall c ps, dom c ps -> exists d, ctor NR false c true ps = Val d.
+Proof.
+  intros c ps H.
+  destruct c; destruct ps as [|p1 [|p2 [|p3 [|p4 [|p5 ps]]]]]; cbn -[c1em6 Phi pf nums] in H; try contradiction;
+    try solve [exfalso; repeat match type of H with match ?p with _ => _ end => destruct p end; exact H];
+    unfold ctor.
+  - (* Bernoulli *)
+    destruct p1 as [x|z|]; try contradiction. fwd. eexists; reflexivity.
+  - (* Beta *)
+    destruct H as [N [H1 H2]]. destruct (nums_inv2 _ _ N) as [N1 N2]. fwd.
+    stepv ltac:(apply gamma_checks_val; [exact H1|unfold one; nr; lra]).
+    stepv ltac:(apply gamma_checks_val; [exact H2|unfold one; nr; lra]). eexists; reflexivity.
+  - (* Binomial *)
+    destruct p1 as [x|n|]; try contradiction. destruct p2 as [x|z|]; try contradiction. destruct H as [Hn Hp].
+    fwd. eexists; reflexivity.
+  - (* Constant *)
+    pose proof (nums_inv1 _ H). fwd. eexists; reflexivity.
+  - (* DiscreteUniform *)
+    destruct p1 as [x|lo|]; try contradiction. destruct p2 as [x|hi|]; try contradiction.
+    assert (K : negb (p_le NR (PI hi) (PI lo)) = true) by (simpl; rewrite negb_true_iff, Z.leb_gt; exact H).
+    fwd. eexists; reflexivity.
+  - (* Erlang *)
+    destruct p2 as [x|k|]; try contradiction. destruct H as [N [H1 Hk]]. destruct (nums_inv2 _ _ N) as [N1 _]. fwd.
+    stepv ltac:(apply r_div_val; apply Rgt_not_eq; exact H1). fwd.
+    match goal with |- context [if ?c then _ else _] => destruct c eqn:E end; [eexists; reflexivity|].
+    stepv ltac:(apply gamma_checks_num; [reflexivity|reflexivity|apply (IZR_lt 0); exact Hk|exact H1]).
+    eexists; reflexivity.
+  - (* Exponential *)
+    destruct H as [N H1]. pose proof (nums_inv1 _ N) as N1. fwd. eexists; reflexivity.
+  - (* Gamma *)
+    destruct H as [N [H1 H2]]. destruct (nums_inv2 _ _ N) as [N1 N2]. fwd.
+    stepv ltac:(apply gamma_checks_num; assumption). eexists; reflexivity.
+  - (* Geometric *)
+    destruct p1 as [x|z|]; try contradiction. fwd.
+    stepv ltac:(apply r_log_val; unfold one; nr; simpl; lra). eexists; reflexivity.
+  - (* LogNormal *)
+    destruct H as [N H2]. destruct (nums_inv2 _ _ N) as [N1 N2]. fwd.
+    stepv ltac:(apply r_sqrt_val; nr; fold (pf p2); pose proof PI_RGT_0; nra). eexists; reflexivity.
+  - (* NegBinomial *)
+    destruct p1 as [x|n|]; try contradiction. destruct p2 as [x|z|]; try contradiction. destruct H as [Hn Hp]. fwd.
+    stepv ltac:(apply r_log_val; unfold one; nr; simpl; lra). eexists; reflexivity.
+  - (* Normal *)
+    destruct H as [N H2]. destruct (nums_inv2 _ _ N) as [N1 N2]. fwd. eexists; reflexivity.
+  - (* NormalTrunc *)
+    destruct H as [N [H2 [H3 H4]]]. destruct (nums_inv4 _ _ _ _ N) as [N1 [N2 [N3 N4]]]. unfold lt_ok. fwd.
+    stepv ltac:(apply cum_prob_nt_val; exact H2). stepv ltac:(apply cum_prob_nt_val; exact H2).
+    assert (K : leb NR (c1em6 NR) (sub NR (Phi (pf p1) (pf p2) (pf p4)) (Phi (pf p1) (pf p2) (pf p3))) = true)
+      by (apply Rleb_true; exact H4).
+    fwd. pose proof c1em6_pos.
+    stepv ltac:(apply r_div_val; nr; fold (pf p1) (pf p2) (pf p3) (pf p4); apply Rgt_not_eq; lra). eexists; reflexivity.
+  - (* Pearson5 *)
+    destruct H as [N [H1 H2]]. destruct (nums_inv2 _ _ N) as [N1 N2]. fwd.
+    stepv ltac:(apply r_div_val; apply Rgt_not_eq; exact H2). fwd.
+    stepv ltac:(apply gamma_checks_val; [exact H1|unfold one; nr; apply Rdiv_lt_0_compat; [lra|exact H2]]).
+    eexists; reflexivity.
+  - (* Pearson6 *)
+    destruct H as [N [H1 [H2 H3]]]. destruct (nums_inv3 _ _ _ N) as [N1 [N2 N3]]. fwd.
+    stepv ltac:(apply gamma_checks_val; assumption). stepv ltac:(apply gamma_checks_val; assumption).
+    eexists; reflexivity.
+  - (* Poisson *)
+    destruct H as [N H1]. pose proof (nums_inv1 _ N) as N1. fwd. eexists; reflexivity.
+  - (* Triangular *)
+    destruct H as [N [[H1 H2] H3]]. destruct (nums_inv3 _ _ _ N) as [N1 [N2 N3]]. unfold le_ok.
+    assert (K : negb (p_eq NR p1 p3) = true).
+    { rewrite negb_true_iff. destruct (p_eq NR p1 p3) eqn:E; [|reflexivity].
+      apply p_eq_iff in E; try assumption. contradiction. }
+    fwd. eexists; reflexivity.
+  - (* Uniform *)
+    destruct H as [N H1]. destruct (nums_inv2 _ _ N) as [N1 N2]. unfold lt_ok. fwd. eexists; reflexivity.
+  - (* Weibull *)
+    destruct H as [N [H1 H2]]. destruct (nums_inv2 _ _ N) as [N1 N2]. fwd. eexists; reflexivity.
+Qed.
+
+(* a non-stream is refused whatever the parameters *)
+Theorem ctor_needs_stream : forall pv c ps d, ctor NR pv c false ps = Val d -> False.
+Proof.
+  intros pv c ps d H.
+  destruct c; destruct ps as [|p1 [|p2 [|p3 [|p4 [|p5 ps]]]]]; try discriminate H;
+    unfold ctor in H; repeat chk H; discriminate.
+Qed.
+
 End Ctor.
